@@ -191,6 +191,50 @@ pub fn decode_spec(u: &mut Unstructured, mode: u8, tier: Tier) -> Spec {
     Spec { row, n, key_style: u.int_in_range(0u8..=2).unwrap_or(0), val_kind: u.int_in_range(0u8..=5).unwrap_or(0), val_bits: u.int_in_range(1u32..=64).unwrap_or(8), cfg, cfg2 }
 }
 
+/// Builds in the pure peeling regimes of the fuse logics: more than 800000
+/// keys for the sharded logics and more than 100000 for FuseLge3NoShards (no
+/// lazy Gaussian elimination there); 800001 sits right above the switch, where
+/// about a third of the seeds give a graph that does not peel at the first
+/// attempt. The first 10 entries are the quick tier.
+pub fn peeling_spec(j: usize) -> Spec {
+    const T: [(usize, u8); 24] = [
+        (800_001, 0),
+        (100_001, 3),
+        (800_001, 18),
+        (100_003, 2),
+        (800_001, 7),
+        (150_001, 11),
+        (1_000_003, 19),
+        (800_002, 1),
+        (120_000, 17),
+        (2_500_000, 0),
+        (5_000_001, 7),
+        (10_000_001, 2),
+        (20_000_001, 19),
+        (4_999_999, 11),
+        (20_500_000, 1),
+        (800_001, 16),
+        (1_700_001, 5),
+        (10_000_000, 6),
+        (6_000_000, 0),
+        (20_000_001, 18),
+        (3_000_000, 10),
+        (800_001, 13),
+        (400_001, 8),
+        (250_000, 15),
+    ];
+    let (n, row) = T[j % T.len()];
+    let mut cfg = Cfg::default();
+    cfg.seed = (j / T.len()) as u64 * 7919 + j as u64;
+    cfg.low_mem = [Some(true), None, Some(false)][j % 3];
+    cfg.offline = j % 7 == 6;
+    cfg.threads = [8usize, 1, 4, 16][j % 4];
+    if j % 4 == 1 {
+        cfg.hint = Hint::Exact;
+    }
+    Spec { row, n, key_style: 0, val_kind: (j % 6) as u8, val_bits: 1 + (j * 7 % 64) as u32, cfg, cfg2: None }
+}
+
 impl Property for C07 {
     fn id(&self) -> &'static str {
         "C07"
@@ -203,7 +247,7 @@ impl Property for C07 {
             Segment::random("regime-switches", tier.pick(64, 800), &[1], 24, 120),
             // the pure peeling regimes of the fuse logics (no lazy Gaussian elimination above 800000 keys; expansion
             // factor switches at 5, 10 and 20 million keys; sharded peeling from 20 million keys)
-            Segment::enumerated("peeling-regimes", tier.pick(3, 14), &[3]),
+            Segment::enumerated("peeling-regimes", tier.pick(10, 48), &[3]),
         ]
     }
     fn watchdog_s(&self) -> u64 {
@@ -214,7 +258,7 @@ impl Property for C07 {
         true
     }
     fn rule(&self) -> &'static str {
-        "case = (row of a 20-row table of (key type in usize/u64/u8/String/str, value word u8..usize, backend Box<[W]>/BitFieldVec<W>, signature 64/128 bits, one of the 5 shard/edge logics), n, key style (dense/strided/permuted, prefix families, unicode), value kind (identity, all zero, all ones, uniform b-bit, one outlier), configuration (offline, low_mem, threads in 1..16, eps, log2_buckets, seed, expected_num_keys absent/exact/half/double/zero/another sharding regime, check_dups), optionally a second configuration) decoded from bytes; plus the enumeration of every n in 0..=130 on every table row with the default configuration; plus sizes around the 100k/200k/400k/800k/1.7M regime switches; plus an enumerated segment of builds in the pure peeling regimes (800001, 10^6, 2.5*10^6; thorough also 5*10^6+-1, 10^7(+1), 2*10^7+1 and 2.05*10^7 keys: every expansion-factor bracket and sharded peeling) with low/high-memory peeling, 1..16 threads, on- and off-line stores. Keys come from a harness lender that counts passes and fails its 65th rewind (deterministic termination bound). Oracle = the input pairs: Ok, len()==n, get(k_i)==v_i for all i, get_unaligned where the width is admissible, agreement between configurations. Non-trivial: n>=1; distinct = distinct hash of the decoded spec."
+        "case = (row of a 20-row table of (key type in usize/u64/u8/String/str, value word u8..usize, backend Box<[W]>/BitFieldVec<W>, signature 64/128 bits, one of the 5 shard/edge logics), n, key style (dense/strided/permuted, prefix families, unicode), value kind (identity, all zero, all ones, uniform b-bit, one outlier), configuration (offline, low_mem, threads in 1..16, eps, log2_buckets, seed, expected_num_keys absent/exact/half/double/zero/another sharding regime, check_dups), optionally a second configuration) decoded from bytes; plus the enumeration of every n in 0..=130 on every table row with the default configuration; plus sizes around the 100k/200k/400k/800k/1.7M regime switches; plus an enumerated segment of builds in the pure peeling regimes (800001/800002 keys on the sharded logics, 100001..150001 on FuseLge3NoShards, 10^6, 2.5*10^6; thorough also 5*10^6+-1, 10^7(+1), 2*10^7+1 and 2.05*10^7 keys: every expansion-factor bracket and sharded peeling) with low/high-memory peeling, 1..16 threads, on- and off-line stores. Keys come from a harness lender that counts passes and fails its 65th rewind (deterministic termination bound). Oracle = the input pairs: Ok, len()==n, get(k_i)==v_i for all i, get_unaligned where the width is admissible, agreement between configurations. Non-trivial: n>=1; distinct = distinct hash of the decoded spec."
     }
     fn run(&self, data: &[u8], cx: &mut Ctx) -> R {
         let (mode, rest) = data.split_first().unwrap_or((&0, &[]));
@@ -238,20 +282,8 @@ impl Property for C07 {
         } else if *mode == 3 {
             let mut b = [0u8; 8];
             b[..rest.len().min(8)].copy_from_slice(&rest[..rest.len().min(8)]);
-            let j = u64::from_le_bytes(b) as usize;
-            let n = [800_001usize, 1_000_003, 2_500_000, 5_000_001, 10_000_001, 20_000_001, 4_999_999, 20_500_000, 800_001, 1_700_001, 10_000_000, 6_000_000, 20_000_001, 3_000_000][j % 14];
-            // rows with integer keys on every logic
-            let row = [0u8, 3, 18, 7, 2, 19, 11, 1, 5, 17, 6, 0, 18, 10][j % 14];
-            let mut cfg = Cfg::default();
-            cfg.seed = j as u64;
-            cfg.low_mem = [None, Some(true), Some(false)][j % 3];
-            cfg.offline = j % 5 == 4;
-            cfg.threads = [8usize, 1, 4, 16][j % 4];
-            if j % 4 == 1 {
-                cfg.hint = Hint::Exact;
-            }
             cx.label("peeling-regime");
-            Spec { row, n, key_style: 0, val_kind: (j % 6) as u8, val_bits: 1 + (j * 7 % 64) as u32, cfg, cfg2: None }
+            peeling_spec(u64::from_le_bytes(b) as usize)
         } else {
             let mut u = Unstructured::new(rest);
             decode_spec(&mut u, *mode, cx.tier)
